@@ -198,11 +198,16 @@ func c12ErrClass(err error) string {
 	}
 }
 
+var c12LastDefault atomic.Int64
+
 func c12GenFields(rng *rand.Rand, ctr *atomic.Int64) (c12Fields, string) {
 	var f c12Fields
 	parts := []string{}
 	if rng.IntN(3) != 0 {
 		v := int(ctr.Add(1)) // unique value per write: a read identifies the write it saw
+		if d := c12LastDefault.Load(); d != 0 && rng.IntN(4) == 0 {
+			v = int(d) // pin the value the path currently inherits from pathDefaults: must still be stored on the path
+		}
 		f.MaxReaders = &v
 		parts = append(parts, fmt.Sprintf(`"maxReaders":%d`, v))
 	}
@@ -282,6 +287,9 @@ func c12History(t *testing.T, r *vmon.Run, rng *rand.Rand, hi int, b *bbCore) bo
 					in.Name = ""
 					// defaults: only maxReaders is modelled there
 					in.Fields = c12Fields{MaxReaders: in.Fields.MaxReaders}
+					if in.Fields.MaxReaders != nil {
+						c12LastDefault.Store(int64(*in.Fields.MaxReaders))
+					}
 					raw := "{}"
 					if in.Fields.MaxReaders != nil {
 						raw = fmt.Sprintf(`{"maxReaders":%d}`, *in.Fields.MaxReaders)
@@ -397,6 +405,9 @@ func TestVerifC12(t *testing.T) {
 	for hi := 0; hi < n; hi++ {
 		delay.Store(hi%2 == 0)
 		c12History(t, r, rng, hi, b)
+		if hi%25 == 0 {
+			c12Pinned(r, b, hi)
+		}
 		if r.Violations() > 6 {
 			break
 		}
